@@ -298,6 +298,16 @@ def refresh_transitions(ctx, rid):
     run.instance(rid, {"fn": "apply_api_outputs", "obligation": "reported by the node => mark_unspent; absent => mark_spent or mark_reverted; then saved"}, held=held)
     if not held:
         run.finding(Finding(rid, ap.id, "refresh does not move outputs to Unspent / Spent according to the node's answer", site=ap.loc()))
+    # the height the node reports is taken over on every reported record (a re-mined output changes height
+    # without ever being seen missing)
+    if g_api is not None and g_api.ok:
+        hb = {b for b, _st in vf.field_assignments(ap, OD, "height")}
+        sv = {b for b, _t in cfg.find_calls(ap, c.WOB + "save")}
+        par = cfg.reach(ap, starts=[d for (_s, d) in g_api.ok], cut_nodes=hb | cfg.error_return_blocks(ap))
+        h2 = bool(hb) and not any(b in par for b in sv)
+        run.instance(rid, {"fn": "apply_api_outputs", "obligation": "a record the node reports takes the reported height before it is saved"}, held=h2)
+        if not h2:
+            run.finding(Finding(rid, ap.id, "a record reported by the node can be saved without taking the reported height (a re-mined output keeps its old height, its confirmations are miscounted)", site=ap.loc()))
 
 
 def refresh_not_skipped(ctx, rid):
@@ -407,3 +417,120 @@ def flow_tied_entry(ctx, rid):
         run.instance(rid, {"fn": "update_stored_tx", "obligation": "Ok only if an entry was selected"}, held=h)
         if not h:
             run.finding(Finding(rid, us.id, "update_stored_tx can return Ok without having found the entry of this flow", site=us.loc()))
+
+def reservation_recheck(ctx, rid):
+    """lock_tx_context re-reads every input and reserves it only if it is neither Locked, Spent nor Reverted."""
+    run = ctx.run
+    SEL = c.LW + "internal::selection::"
+    OD = c.LW + "types::OutputData"
+    OS = c.LW + "types::OutputStatus"
+    lk = ctx.fn(SEL + "lock_tx_context")
+    if lk:
+        fl = vf.get_flow(lk)
+        locks = cfg.find_calls(lk, c.WOB + "lock_output")
+        if not locks:
+            run.error("%s: lock_output not called in lock_tx_context" % rid)
+        for b, t in locks:
+            coin = vf.strip_clones(lk, t["a"][1])
+            # guards: comparisons / eligible_to_spend calls over the coin's status that dominate the lock
+            edges_ok = set()
+            needed = {"Locked": False, "Spent": False, "Reverted": False}
+            for x in cfg.comparisons(lk):
+                if x.op not in ("Eq", "Ne"):
+                    continue
+                lo, ro = fl.of_operand(x.l), fl.of_operand(x.r)
+                for a, bb_ in ((x.l, ro), (x.r, lo)):
+                    pa = vf.producers(lk, a)
+                    base_ok = vf.has_field(pa, OD, "status") and vf.has_call(pa | fl.of_operand(a), c.WOB + "get")
+                    if not base_ok:
+                        continue
+                    for st in list(needed):
+                        if ("agg", OS, st) in bb_:
+                            ne = x.false_edges if x.op == "Eq" else x.true_edges
+                            if ne and cfg.must_pass(lk, ne, {b})[0]:
+                                needed[st] = True
+            el = [(eb, et) for eb, et in cfg.find_calls(lk, OD + "::eligible_to_spend")]
+            for eb, et in el:
+                g = cfg.call_guard(lk, eb)
+                if g.ok and cfg.must_pass(lk, g.ok, {b})[0] and vf.has_call(vf.origins(lk, et["a"][0]), c.WOB + "get"):
+                    needed = {k: True for k in needed}
+            # white-list form: the lock is reached only on `status == Unspent` / `status == Unconfirmed` edges
+            wl = set()
+            for x in cfg.comparisons(lk):
+                if x.op not in ("Eq", "Ne"):
+                    continue
+                lo, ro = fl.of_operand(x.l), fl.of_operand(x.r)
+                for a, bb_ in ((x.l, ro), (x.r, lo)):
+                    pa = vf.producers(lk, a)
+                    if vf.has_field(pa, OD, "status") and vf.has_call(pa | fl.of_operand(a), c.WOB + "get") and (("agg", OS, "Unspent") in bb_ or ("agg", OS, "Unconfirmed") in bb_):
+                        wl |= (x.true_edges if x.op == "Eq" else x.false_edges)
+            if wl and cfg.must_pass(lk, wl, {b})[0]:
+                needed = {k: True for k in needed}
+            held = all(needed.values())
+            only_rev = held is False and needed["Locked"] and needed["Spent"] and not needed["Reverted"]
+            run.instance(rid, {"fn": "lock_tx_context", "obligation": "lock_output(coin) only for a freshly read coin that is neither Locked, Spent nor Reverted", "guards": needed}, held=held)
+            if only_rev:
+                run.finding(Finding(rid, lk.id, "an input that a scan has marked Reverted since it was selected is still reserved: the re-check of the freshly read record does not refuse Reverted", site=c.site_of(lk, b)))
+            elif not held:
+                run.finding(Finding(rid, lk.id, "inputs are locked without re-checking that the freshly read output is still unreserved", site=c.site_of(lk, b),
+                                    detail="selection checked eligibility when the context was built; the lock step reads the record again (batch.get) but does not look at its status: %s" % needed))
+            # the coin locked is the one read by batch.get for the context's input ids
+            o = vf.origins(lk, t["a"][1])
+            h = vf.has_call(o, c.WOB + "get") and vf.has_call(o, c.LW + "types::Context::get_inputs")
+            run.instance(rid, {"fn": "lock_tx_context", "obligation": "the locked coin is batch.get(id) for id in context.get_inputs()"}, held=h)
+            if not h:
+                run.finding(Finding(rid, lk.id, "locked coin is not the record read for the context's input ids", site=c.site_of(lk, b)))
+
+def expiry_step_scope(ctx, rid, which):
+    """Step 5 of update_wallet_state (TTL expiry) cancels only entries that are unconfirmed and were never confirmed."""
+    run = ctx.run
+    u3 = ctx.fn(c.LW + "api_impl::owner::update_wallet_state")
+    if u3 is None:
+        run.error("%s: update_wallet_state not found" % rid)
+    else:
+        TLE = c.LW + "types::TxLogEntry"
+        TLT = c.LW + "types::TxLogEntryType"
+        cb3 = {b for b, _t in cfg.find_calls(u3, c.LW + "internal::tx::cancel_tx")}
+        # (a) the `confirmed == false` edge
+        unconf = set()
+        for b, bb in enumerate(u3.bbs):
+            t = bb["t"]
+            if t["k"] != "sw":
+                continue
+            ol = vf.op_place(t["o"])
+            for st in bb["s"]:
+                if st["k"] == "a" and ol and st["d"] == [ol[0], []]:
+                    r = st["r"]
+                    q = vf.op_place(r["o"]) if r["k"] == "use" else None
+                    neg = False
+                    if r["k"] == "un" and r["op"] == "Not":
+                        q0 = vf.op_place(r["o"])
+                        for st2 in bb["s"]:
+                            if st2["k"] == "a" and q0 and st2["d"] == [q0[0], []] and st2["r"]["k"] == "use":
+                                q = vf.op_place(st2["r"]["o"])
+                                neg = True
+                    if q and q[1] and isinstance(q[1][-1], dict) and q[1][-1].get("a") == TLE and q[1][-1].get("n") == "confirmed":
+                        zero = {tb for v, tb in t["t"] if v == "0"}
+                        for s_ in u3.succ(b):
+                            if (s_ in zero) != neg:
+                                unconf.add((b, s_))
+        h1 = "confirmed" not in which or (bool(unconf) and bool(cb3) and cfg.must_pass(u3, unconf, cb3)[0])
+        if "confirmed" in which:
+            run.instance(rid, {"fn": "update_wallet_state", "obligation": "step-5 cancel only on the `!tx.confirmed` edge (the list carries what the kernel step just confirmed)", "edges": len(unconf)}, held=h1)
+        if not h1:
+            run.finding(Finding(rid, u3.id, "the expiry step tries to cancel an entry the same refresh has just confirmed: the whole refresh fails with TransactionNotCancellable", site=u3.loc()))
+        # (b) not TxReverted
+        notrev = set()
+        fl3 = vf.get_flow(u3)
+        for x in cfg.comparisons(u3):
+            if x.op not in ("Eq", "Ne"):
+                continue
+            lo, ro = fl3.of_operand(x.l) | vf.producers(u3, x.l), fl3.of_operand(x.r) | vf.producers(u3, x.r)
+            for a, b_ in ((lo, ro), (ro, lo)):
+                if vf.has_field(a, TLE, "tx_type") and ("agg", TLT, "TxReverted") in b_:
+                    notrev |= (x.false_edges if x.op == "Eq" else x.true_edges)
+        h2 = "reverted" not in which or (bool(notrev) and bool(cb3) and cfg.must_pass(u3, notrev, cb3)[0])
+        if "reverted" in which:
+            run.instance(rid, {"fn": "update_wallet_state", "obligation": "step-5 cancel only for an entry that is not TxReverted", "edges": len(notrev)}, held=h2)
+        if not h2:
+            run.finding(Finding(rid, u3.id, "the expiry step cancels a payment that was confirmed once and reorganised away (TxReverted) and deletes its output: when it is mined again the entry stays cancelled", site=u3.loc()))
